@@ -9,13 +9,13 @@ use rayon::prelude::*;
 use serde_json::{json, Value};
 use ureq_proto::http::{HeaderName, HeaderValue};
 
-use crate::chain::{write_head, ChainCfg, ChainSt, HopAct, Loc};
+use crate::chain::{write_head, write_head_sized, ChainCfg, ChainSt, HopAct, Loc};
 use crate::driver::ReqCfg;
 use crate::engine::{guarded, hex, show, unhex, Report, Sys, Tier, Violation};
 use crate::refmodel::head;
 use crate::refmodel::reqvalid::{self, ReqFacts};
 
-pub const RULE: &str = "flows = every state of the redirect-chain graph (original GET / POST with authorization, cookie, content-length, x-keep; statuses {302,307}; Locations {same host /q, other host http://b.test/q, same host https}; both policies; depth 0..3) x caller additions: all sequences of length 0..=3 (thorough 0..=4) over the pool {cookie: k=NEW1, cookie: k=NEW2, authorization: NEW, content-length: 0 (with send-body-despite-method), host: h.test, connection: close, x-a: 1, X-MiXeD: v, cookie and authorization EQUAL to the inherited ones, a non-UTF-8 cookie value} plus long sequences of n = 4..=60 additions cycling through the pool; restricted to requests the validity model accepts; head written under two buffer schedules, parsed back and compared in full with the reference head (added in order, derived headers, unsuppressed originals). distinct = distinct (flow state, addition sequence) pairs";
+pub const RULE: &str = "flows = every state of the redirect-chain graph (original GET / POST with authorization, cookie, content-length, x-keep; statuses {302,307}; Locations {same host /q, other host http://b.test/q, same host https}; both policies; depth 0..3) x caller additions: all sequences of length 0..=3 (thorough 0..=4) over the pool {cookie: k=NEW1, cookie: k=NEW2, authorization: NEW, content-length: 0 (with send-body-despite-method), host: h.test, connection: close, x-a: 1, X-MiXeD: v, cookie and authorization EQUAL to the inherited ones, a non-UTF-8 cookie value} plus long sequences of n = 4..=60 additions cycling through the pool; restricted to requests the validity model accepts; head written under twelve buffer schedules (send_body_despite_method() called before, between and after the additions), parsed back and compared in full with the reference head (added in order, derived headers, unsuppressed originals). distinct = distinct (flow state, addition sequence) pairs";
 
 const POOL: [(&str, &[u8]); 12] = [("transfer-encoding", b"chunked"), ("cookie", b"k=NEW1"), ("cookie", b"k=NEW2"), ("authorization", b"NEW"), ("content-length", b"0"), ("host", b"h.test"), ("connection", b"close"), ("x-a", b"1"), ("X-MiXeD", b"v"), ("cookie", b"k=ORIG"), ("authorization", b"S3CRET"), ("cookie", b"caf\xe9")];
 
@@ -33,7 +33,7 @@ fn chain_cfgs() -> Vec<Arc<ChainCfg>> {
             r = r.orig("content-length", "3");
             body = b"abc".to_vec();
         }
-        out.push(Arc::new(ChainCfg { prop: "C16", req: r, body, statuses: vec![302, 307], locs: locs.clone(), max_hops: 3, check_credentials: true, check_target: false }));
+        out.push(Arc::new(ChainCfg { prop: "C16", req: r, body, statuses: vec![302, 307], locs: locs.clone(), max_hops: 3, check_credentials: true, check_target: false, refuse_expect: false }));
     }
     out
 }
@@ -113,16 +113,46 @@ fn check(st: &ChainSt, added: &[(String, Vec<u8>)]) -> (Option<(String, String)>
         return (None, false); // C17 owns rejected requests
     }
     let r = guarded(|| -> Option<(String, String)> {
-        let mut f = base.clone();
-        if despite {
-            f.send_body_despite_method();
+        // send_body_despite_method() may be called before, between or after the header() calls:
+        // the head must be the same
+        let positions: Vec<usize> = if despite { vec![0, added.len() / 2, added.len()] } else { vec![0] };
+        let mut flows = Vec::new();
+        for pos in positions {
+            let mut f = base.clone();
+            for (i, (k, v)) in added.iter().enumerate() {
+                if despite && i == pos {
+                    f.send_body_despite_method();
+                }
+                if let Err(e) = f.header(HeaderName::from_bytes(k.as_bytes()).unwrap(), HeaderValue::from_bytes(v).unwrap()) {
+                    return Some(("C16:header-call-failed".into(), format!("header({}, ..) failed: {:?}", k, e)));
+                }
+            }
+            if despite && pos >= added.len() {
+                f.send_body_despite_method();
+            }
+            flows.push(f);
         }
-        for (k, v) in added {
-            if let Err(e) = f.header(HeaderName::from_bytes(k.as_bytes()).unwrap(), HeaderValue::from_bytes(v).unwrap()) {
-                return Some(("C16:header-call-failed".into(), format!("header({}, ..) failed: {:?}", k, e)));
+        let f = flows.remove(0);
+        let a = write_head(&f, false);
+        for (j, g) in flows.iter().enumerate() {
+            let o = write_head(g, false);
+            if o.err != a.err || o.bytes != a.bytes {
+                return Some(("C16:added-header-missing:despite-order".into(), format!("redirect depth {}: added {:?}: the head differs when send_body_despite_method() is called after {} of the header() calls instead of before them: {:?} vs {:?}", st.hop, added.iter().map(|(k, v)| format!("{}: {}", k, show(v))).collect::<Vec<_>>(), if j == 0 { "half" } else { "all" }, show(&o.bytes), show(&a.bytes))));
             }
         }
-        let a = write_head(&f, false);
+        // further fixed buffer sizes (a size smaller than the longest line legitimately overflows)
+        if added.len() <= 3 && a.err.is_none() {
+            for size in [24usize, 28, 32, 36, 40, 44, 52, 60, 72, 90] {
+                let o = write_head_sized(&f, size);
+                match &o.err {
+                    Some(e) if e.contains("OutputOverflow") => continue,
+                    _ => {}
+                }
+                if o.err.is_some() || o.bytes != a.bytes {
+                    return Some(("C16:added-header-missing:buffer-schedule".into(), format!("redirect depth {}: added {:?}: with {}-byte buffers the head comes out as {:?} ({:?}) instead of {:?}", st.hop, added.iter().map(|(k, v)| format!("{}: {}", k, show(v))).collect::<Vec<_>>(), size, show(&o.bytes), o.err, show(&a.bytes))));
+                }
+            }
+        }
         let b = write_head(&f, true);
         if let Some(e) = &a.err {
             return Some(("C16:valid-request-refused".into(), format!("depth {}: request with added headers {:?} was refused: {}", st.hop, added.iter().map(|(k, v)| format!("{}: {}", k, show(v))).collect::<Vec<_>>(), e)));
